@@ -100,7 +100,7 @@ def run(chk):
     chk.extra["compared_with_model"] = len(small)
     chk.extra["implementation_only_large_inputs"] = len(mcases) - len(small)
     proj = lambda r: r.split(" ")[0] + " " + " ".join(r.split(" ")[1:5]) if r.startswith("( ") else r
-    chk.compare("entry-points-vs-models", mcases, impl, model, project=lambda r: r.rsplit(" ", 1)[0] if r.startswith("( ") and r.split(" ")[-1] in ("accept", "reject", "error") else r)
+    chk.compare("entry-points-vs-models", mcases, impl, model, project=lambda r: r.rsplit(" ", 1)[0] if r.startswith("( ") and r.split(" ")[-1] in ("accept", "reject", "error") else r, spec=False)
     per = {}
     for c, i in zip(icases, impl):
         per.setdefault(c[0], {"cases": 0, "ok": 0, "max_len": 0})
